@@ -242,6 +242,47 @@ def unit_limits(rec: Rec, n: int, offset: int) -> None:
     hyp.run(rec, limit_edge_cases(), body, n, seed_offset=offset)
 
 
+def compressed_streams() -> list[dict]:
+    """Bodies with a content coding (decoded by the parser): the coding sniffing and the decompressor see the body in pieces."""
+    import gzip
+    import zlib
+
+    text = (b"The quick brown fox jumps over the lazy dog. " * 6)[:230]
+    raw = zlib.compressobj(6, zlib.DEFLATED, -15)
+    codings = {"gzip": gzip.compress(text, mtime=0), "deflate": zlib.compress(text), "deflate-raw": raw.compress(text) + raw.flush()}
+    out = []
+    for name, comp in codings.items():
+        ce = b"Content-Encoding: " + name.split("-")[0].encode() + b"\r\n"
+        for framing in ("cl", "chunked", "chunked-small"):
+            if framing == "cl":
+                fr, payload = b"Content-Length: %d\r\n" % len(comp), comp
+            else:
+                step = 5 if framing == "chunked-small" else 64
+                payload = b"".join(b"%x\r\n" % len(comp[i:i + step]) + comp[i:i + step] + b"\r\n" for i in range(0, len(comp), step)) + b"0\r\n\r\n"
+                fr = b"Transfer-Encoding: chunked\r\n"
+            nxt_req = b"GET /next HTTP/1.1\r\nHost: a\r\n\r\n"
+            out.append({"kind": "request", "stream": b"POST /c HTTP/1.1\r\nHost: a\r\n" + ce + fr + b"\r\n" + payload + nxt_req, "cls": f"compressed/{name}/{framing}",
+                        "limits": {}, "exhaustive_max": 160})
+            for rk in ("response-lax", "response-strict"):
+                out.append({"kind": rk, "stream": b"HTTP/1.1 200 OK\r\n" + ce + fr + b"\r\n" + payload + b"HTTP/1.1 204 No Content\r\n\r\n", "cls": f"compressed/{name}/{framing}",
+                            "limits": {}, "exhaustive_max": 160})
+    return out
+
+
+def unit_compressed(rec: Rec, shard: int, nshards: int) -> None:
+    for i, case in enumerate(compressed_streams()):
+        if i % nshards != shard:
+            continue
+        try:
+            body(rec, case)
+        except Violation as v:
+            if v.key in rec.muted:
+                continue
+            rec.fail(v.key, v.msg, case)
+            rec.muted.add(v.key)
+    rec.exhaustive = True
+
+
 def units(tier: str, seed: int) -> list[Unit]:
     n = 14 if tier == "quick" else 250
     us = []
@@ -256,6 +297,8 @@ def units(tier: str, seed: int) -> list[Unit]:
         us.append(Unit(f"resp{i}", unit_resp, {"n": n, "offset": 60 + i}))
     for i in range(4):
         us.append(Unit(f"limits{i}", unit_limits, {"n": n * 2, "offset": 80 + i}))
+    for sh in range(3):
+        us.append(Unit(f"compressed{sh}", unit_compressed, {"shard": sh, "nshards": 3}))
     return us
 
 
